@@ -91,7 +91,9 @@ func genC08Steps(t *rapid.T, depth int, subPool []string) []Step {
 	return steps
 }
 
-var c08RunPool = []string{"", "", "", "TestSnapApi", "Snap", "TestAlpha", "Alpha", "Al", "TestB", "B", "Beta", "Gamma", "TestGamma2", "2", "TestAlpha|TestGamma", "^TestAlpha$", "^TestB$", "TestAlpha/sub1", "Alpha/s", "sub1", "Sub", "TestAl/", "Test_x", "x", "TestBeta/sub2/deep", "/sub1", "TestA.*a$"}
+var c08RunPool = []string{"", "", "", "TestSnapApi", "Snap", "TestAlpha", "Alpha", "Al", "TestB", "B", "Beta", "Gamma", "TestGamma2", "2", "TestAlpha|TestGamma", "^TestAlpha$", "^TestB$", "TestAlpha/sub1", "Alpha/s", "sub1", "Sub", "TestAl/", "Test_x", "x", "TestBeta/sub2/deep", "/sub1", "TestA.*a$",
+	// groups of three and more alternatives (a hand-typed list, a CI test splitter): the middle ones are bare literals
+	"^(TestAlpha|TestB|TestGamma)$", "^(TestGamma|TestAl|TestSnapApi)$", "^(TestAl|TestGamma|TestB)$", "^(TestAlpha|TestGamma|TestB)$/^(sub1|Sub|sub2)$"}
 
 func allNames(tests map[string][]Step) []string {
 	var out []string
